@@ -74,6 +74,10 @@ fn gen_case(c: &mut Chooser) -> Case {
     for k in [c18::F_MAIN, c18::F_FRAGS, c18::F_SIMPLE, c18::F_OTHER, c18::F_SPACED] {
         files.insert(k.to_string(), base[k].clone());
     }
+    // a chain of imports: a -> b -> c, where a does not import c itself, across directories
+    files.insert("src/chain/a.graphql".into(), "#import Mid from \"./lib/b.graphql\"\nquery ChainA {\n  me { ...Mid }\n}\n".into());
+    files.insert("src/chain/lib/b.graphql".into(), "#import Leaf from \"../../leaf/c.graphql\"\nfragment Mid on User {\n  id\n  ...Leaf\n}\n".into());
+    files.insert("src/leaf/c.graphql".into(), "fragment Leaf on User {\n  name\n}\nfragment LeafUnused on User { age }\n".into());
     match c.choose("unicode", 2) {
         0 => {}
         _ => {
@@ -561,7 +565,7 @@ fn layer(rep: &Reporter, args: &Args, only_paths: bool) -> J {
     let ctr = Ctr { runs: AtomicU64::new(0), maps: AtomicU64::new(0), segments: AtomicU64::new(0), coverage_items: AtomicU64::new(0), specifiers: AtomicU64::new(0), char_vs_utf16: AtomicU64::new(0) };
     let distinct = DistinctSet::new();
     let sample: Mutex<Option<J>> = Mutex::new(None);
-    let (dev, budget) = if args.quick() { (2, 40) } else { (4, 1500) };
+    let (dev, budget) = if args.quick() { (3, 40) } else { (5, 1500) };
     let stats = explore(&ExploreCfg { max_dev: dev, threads: args.threads, budget: Duration::from_secs(budget) }, |c: &mut Chooser| {
         let case = gen_case(c);
         if !distinct.insert(fnv(format!("{:?}", case.files).as_bytes())) {
